@@ -34,7 +34,6 @@ type vfMeshNode struct {
 	inst  *vfRInst
 	h     *AnnouncePingHandler
 	links []*peering.VfLink
-	seen  []int // frames of each link already collected (Sent, Prio interleaved: 2 counters per link)
 }
 
 type vfMeshFrame struct {
@@ -187,6 +186,13 @@ func vfMeshAddr(i int) netip.Addr {
 	return netip.AddrFrom16(a)
 }
 
+func vfMeshLat() uint16 {
+	if vf.Param("LAT") == 1 {
+		return vf.U16() // arbitrary link latencies
+	}
+	return 7
+}
+
 func vfMeshLabel() m.SwitchLabel {
 	l := m.SwitchLabel(vf.U16())
 	vf.Assume(l >= 1 && l <= m.MaxPrivateSwitchLabel)
@@ -218,8 +224,8 @@ func vfMeshBuild(n int, edges [][2]int) {
 	}
 	for _, e := range edges {
 		a, b := vfMesh[e[0]], vfMesh[e[1]]
-		a.links = append(a.links, &peering.VfLink{Label: vfMeshLabel(), PeerIP: b.addr, Lat: vf.U16()})
-		b.links = append(b.links, &peering.VfLink{Label: vfMeshLabel(), PeerIP: a.addr, Lat: vf.U16()})
+		a.links = append(a.links, &peering.VfLink{Label: vfMeshLabel(), PeerIP: b.addr, Lat: vfMeshLat()})
+		b.links = append(b.links, &peering.VfLink{Label: vfMeshLabel(), PeerIP: a.addr, Lat: vfMeshLat()})
 	}
 	for _, nd := range vfMesh {
 		ls := make([]peering.Link, len(nd.links))
@@ -236,7 +242,6 @@ func vfMeshBuild(n int, edges [][2]int) {
 		nd.r.ErrorPing = &ErrorPingHandler{r: nd.r}
 		nd.h = NewAnnouncePingHandler(nd.r)
 		nd.r.AnnouncePing = nd.h
-		nd.seen = make([]int, 2*len(nd.links))
 		// the direct-peer routes AddLink registers
 		for _, l := range nd.links {
 			added, err := nd.r.table.AddRoute(m.RoutingTableEntry{DstIP: l.PeerIP, NextHop: l.PeerIP, Source: m.RouteSourcePeer})
@@ -265,33 +270,27 @@ func (nd *vfMeshNode) linkTo(o *vfMeshNode) *peering.VfLink {
 
 // vfMeshCollect moves what node nd's links recorded into the queue.
 func vfMeshCollect(nd *vfMeshNode, cause *vfMeshFrame) {
-	for i, l := range nd.links {
-		for k := 0; k < 2; k++ {
-			lst := l.Sent
-			if k == 1 {
-				lst = l.Prio
-			}
-			for nd.seen[2*i+k] < len(lst) {
-				f := lst[nd.seen[2*i+k]]
-				nd.seen[2*i+k]++
-				to := vfMeshNodeOf(l.PeerIP)
-				mf := &vfMeshFrame{to: to.idx, from: nd.idx, f: f}
-				if cause == nil {
-					vfMeshAnnN++
-					mf.ann, mf.path = vfMeshAnnN, []int{nd.idx}
-				} else {
-					mf.ann = cause.ann
-					mf.path = append(append([]int(nil), cause.path...), nd.idx)
-					// flooding discipline
-					org := cause.path[0]
-					vf.Assert(to.idx != org, "announcement-sent-to-its-origin")
-					vf.Assert(to.idx != cause.from, "announcement-sent-back-over-arrival-link")
-					for _, p := range cause.path {
-						vf.Assert(to.idx != p, "announcement-sent-to-router-in-its-hop-list")
-					}
+	for _, l := range nd.links {
+		frames := append(append([]frame.Frame(nil), l.Sent...), l.Prio...)
+		l.Sent, l.Prio = nil, nil
+		for _, f := range frames {
+			to := vfMeshNodeOf(l.PeerIP)
+			mf := &vfMeshFrame{to: to.idx, from: nd.idx, f: f}
+			if cause == nil {
+				vfMeshAnnN++
+				mf.ann, mf.path = vfMeshAnnN, []int{nd.idx}
+			} else {
+				mf.ann = cause.ann
+				mf.path = append(append([]int(nil), cause.path...), nd.idx)
+				// flooding discipline
+				org := cause.path[0]
+				vf.Assert(to.idx != org, "announcement-sent-to-its-origin")
+				vf.Assert(to.idx != cause.from, "announcement-sent-back-over-arrival-link")
+				for _, p := range cause.path {
+					vf.Assert(to.idx != p, "announcement-sent-to-router-in-its-hop-list")
 				}
-				vfMeshQueue = append(vfMeshQueue, mf)
 			}
+			vfMeshQueue = append(vfMeshQueue, mf)
 		}
 	}
 }
@@ -422,9 +421,11 @@ func VfC09Mesh() {
 			var next *vfMeshNode
 			var nf frame.Frame
 			for _, l := range cur.links {
-				if len(l.Prio) > 0 {
-					nf, next = l.Prio[len(l.Prio)-1], vfMeshNodeOf(l.PeerIP)
-					l.Prio = l.Prio[:len(l.Prio)-1]
+				vf.Assert(len(l.Sent) == 0 && len(l.Prio) <= 1, "routed-frame-duplicated")
+				if len(l.Prio) == 1 {
+					vf.Assert(next == nil, "routed-frame-sent-on-two-links")
+					nf, next = l.Prio[0], vfMeshNodeOf(l.PeerIP)
+					l.Prio = nil
 				}
 			}
 			if next == nil {
@@ -433,6 +434,9 @@ func VfC09Mesh() {
 			nf.SetRecvLink(next.linkTo(cur))
 			vf.Assert(next.inst.sw.VfHandleFrame(nf) == nil, "switch-refused-routed-frame")
 			in := next.inst.sw.VfRouterInput()
+			if len(in) == 0 {
+				vf.Stop() // the switch drops a frame when the router's input queue is full (select/default): overload is outside this claim
+			}
 			vf.Assert(len(in) == 1, "routed-frame-not-handed-to-router")
 			g := <-in
 			_ = next.r.handleFrame(vfW, g)
